@@ -53,7 +53,6 @@ def jSparse04 (s : Sparse) : Json :=
 def jFullErr04 : FullErr → Json
   | .base e => jLoadErr04 e
   | .shape w => Json.mkObj [("error", Json.str ("shape " ++ w))]
-  | .scalarAttr f => Json.mkObj [("error", Json.str ("scalar_attr " ++ f))]
   | .curatedWithoutTemplates => Json.mkObj [("error", Json.str "curated_without_templates")]
 
 /-- `load_full`: the whole of `_load_data` (`C04.loadFull`).  Raw data files are given by their sizes
